@@ -15,6 +15,7 @@ From V Require Import Gen.NodesXml Model.Xml Spec.XmlLex.
 From V Require Import Gen.Cli Model.CliModel Spec.CliDoc.
 From V Require Import Gen.Tagfilter Model.Tagfilter Spec.GfmFilter.
 From V Require Import Spec.Shape.
+From V Require Import Spec.SourcePos Spec.SourcePosKnown.
 Extraction Language OCaml.
 Set Extraction KeepSingleton.
 
@@ -158,4 +159,11 @@ Extraction "model.ml"
   Shape.s3
   Shape.s6
   Shape.s6w
+  SourcePos.lines_of
+  SourcePos.fails_go
+  SourcePos.slice
+  SourcePos.sp_in_bounds
+  SourcePos.sp_nested
+  SourcePos.sp_slice_ok
+  SourcePosKnown.classify
 .
